@@ -181,6 +181,7 @@ func body(c *hk.Ctx) {
 	sc := &scenario{}
 	c.Scenario = sc
 	events = nil
+	startFailedAndDestroyed = false
 
 	// ---- the cluster ----
 	nAgents := 1 + c.W(3, "agents")
@@ -341,6 +342,22 @@ func body(c *hk.Ctx) {
 		for _, op := range plan[:n] {
 			r := &request{Op: op}
 			sc.Requests = append(sc.Requests, r)
+			var dwg simsync.WaitGroup
+			destroyedMeanwhile := false
+			if prop == "C10" && op == "START_ACTIVITY" && c.W(4, "forced-destroy-during-start") == 3 {
+				// another operator destroys the environment (forced) while the run is being started: the
+				// teardown takes its turn after the transition and ends the run that was just started
+				destroyedMeanwhile = true
+				after := []time.Duration{0, 5 * time.Millisecond, 20 * time.Millisecond, 60 * time.Millisecond}[c.W(4, "destroy-after")]
+				dwg.Add(1)
+				c.S.Go("client-forced-destroy", func() {
+					defer dwg.Done()
+					simrt.Sleep(after)
+					c.Count("probe.forced_destroy_during_start")
+					_, derr := ci.rpc.DestroyEnvironment(ctx, &pb.DestroyEnvironmentRequest{Id: envID, Force: true})
+					c.Logf("forced DESTROY during START -> err=%q", errStr(derr))
+				})
+			}
 			do(r, func() (string, uint32, error) {
 				rep, err := ci.rpc.ControlEnvironment(ctx, &pb.ControlEnvironmentRequest{Id: envID, Type: ops[op]})
 				if rep != nil {
@@ -348,7 +365,11 @@ func body(c *hk.Ctx) {
 				}
 				return "", 0, err
 			})
-			if r.Err != "" || r.State == "ERROR" {
+			dwg.Wait()
+			if destroyedMeanwhile && r.Err != "" {
+				startFailedAndDestroyed = true
+			}
+			if r.Err != "" || r.State == "ERROR" || destroyedMeanwhile {
 				break
 			}
 		}
@@ -382,6 +403,10 @@ func body(c *hk.Ctx) {
 // teardown while running), exactly two further events before the next run starts: the start and
 // the completion of its end. (Their status field is not used: the teardown publishes both as
 // STARTED.)
+// startFailedAndDestroyed: the START_ACTIVITY of this run failed while a forced destroy was waiting
+// for its turn (set by body, read by checkRunEvents; one run per process)
+var startFailedAndDestroyed bool
+
 func checkRunEvents(c *hk.Ctx, envID string, wf *wfSpec) {
 	// a critical hook failing at leave_RUNNING cancels STOP_ACTIVITY and refuses the GO_ERROR that
 	// follows as well: the run then ends through the forced ERROR state (listed known finding)
@@ -407,6 +432,11 @@ func checkRunEvents(c *hk.Ctx, envID string, wf *wfSpec) {
 		}
 		if cur.ends != 2 && refusedGoError {
 			c.Violate("end-timestamps", "forced-error-after-refused-GO_ERROR", "run %d of environment %s ended through the forced ERROR state (STOP_ACTIVITY and GO_ERROR both cancelled by a critical hook at leave_RUNNING): %d end-of-run events instead of 2", cur.no, envID, cur.ends)
+		} else if cur.ends == 0 && startFailedAndDestroyed {
+			// the failed START left the run open (number and start timestamp set, state CONFIGURED); the
+			// forced teardown took its turn before the caller's GO_ERROR and stamps the end only for RUNNING
+			c.Violate("end-of-run-timestamps", "end-events=0:failed-start-torn-down-before-its-GO_ERROR",
+				"run %d of environment %s: its START_ACTIVITY failed in the task phase and a forced teardown took its turn before the GO_ERROR that would have ended the run: no end-of-run event was published (the teardown stamps the end of a run only in state RUNNING)", cur.no, envID)
 		} else if cur.ends != 2 {
 			c.Violate("end-of-run-timestamps", fmt.Sprintf("end-events=%d:%s", min(cur.ends, 3), strings.Join(cur.endedBy, "+")),
 				"run %d of environment %s: %d end-of-run events (start / completion of the end of run) were published, by %v; each of the two end timestamps is to be set exactly once however the run ends", cur.no, envID, cur.ends, cur.endedBy)
